@@ -1,33 +1,4 @@
 // ---------------------------------------------------------------- specification
-pub type Cls = spec_fn(CharClassID, char) -> bool;
-
-/// the part of a compiled automaton that matching depends on (everything but the scratch buffers)
-pub struct DfaCore {
-    pub patterns: Vec<String>,
-    pub terminal_ids: Vec<TerminalID>,
-    pub states: Vec<StateData>,
-    pub end_states: Vec<(bool, TerminalID)>,
-    pub lookaheads: FxHashMap<TerminalID, CompiledLookahead>,
-}
-
-pub open spec fn core(d: CompiledDfa) -> DfaCore {
-    DfaCore { patterns: d.patterns, terminal_ids: d.terminal_ids, states: d.states, end_states: d.end_states, lookaheads: d.lookaheads }
-}
-
-pub open spec fn wf_flat(d: DfaCore) -> bool {
-    &&& d.states@.len() == d.end_states@.len()
-    &&& d.states@.len() >= 1
-    &&& d.states@.len() <= u32::MAX
-    &&& forall|s: int, i: int| 0 <= s < d.states@.len() && 0 <= i < d.states@[s].transitions@.len()
-            ==> (#[trigger] d.states@[s].transitions@[i]).1.0 < d.states@.len()
-    &&& forall|s: int| 0 <= s < d.end_states@.len() && (#[trigger] d.end_states@[s]).0 ==> d.terminal_ids@.contains(d.end_states@[s].1)
-}
-
-pub open spec fn wf(d: DfaCore) -> bool {
-    &&& wf_flat(d)
-    &&& forall|t: TerminalID| #[trigger] d.lookaheads@.contains_key(t) ==> wf_flat(core(*d.lookaheads@[t].nfa)) && d.lookaheads@[t].nfa.lookaheads@.len() == 0
-}
-
 pub open spec fn trans(d: DfaCore, s: int) -> Seq<(CharClassID, StateSetID)> { d.states@[s].transitions@ }
 
 pub open spec fn fires(d: DfaCore, cls: Cls, s: int, i: int, c: char) -> bool {
@@ -150,10 +121,6 @@ pub open spec fn best_outer(d: DfaCore, cls: Cls, text: Seq<char>, base: nat, k:
 /// closure is a total function
 pub open spec fn cls_of<F: Fn(CharClassID, char) -> bool>(f: &F) -> Cls {
     |cc: CharClassID, c: char| call_ensures(f, (cc, c), true)
-}
-pub open spec fn cls_functional<F: Fn(CharClassID, char) -> bool>(f: &F) -> bool {
-    &&& forall|cc: CharClassID, c: char| call_requires(f, (cc, c))
-    &&& forall|cc: CharClassID, c: char| !(#[trigger] call_ensures(f, (cc, c), true) && call_ensures(f, (cc, c), false))
 }
 
 /// relation between the haystack and an iterator positioned at char n of it
